@@ -146,6 +146,10 @@ def progBody (loaded m : Machine) (w : World) : String :=
 by the property-specific verdict (computed here on the model exactly as the harness computes
 it on the implementation). The `S` answer states what the property demands of the verdict. -/
 def handleDbg (tag : String) (toks : List String) : String :=
+  -- trailing `NM`: the session ran in the normal (non `--minimal`) output mode; what the debugger
+  -- printed is then not compared
+  let nm := toks.getLast? == some "NM"
+  let toks := if nm then toks.dropLast else toks
   match parseDbgReq toks with
   | none => "bad-request"
   | some r =>
@@ -153,7 +157,7 @@ def handleDbg (tag : String) (toks : List String) : String :=
     | .exit c => "M loadexit " ++ toString c ++ " | -"
     | .panic _ => "M loadpanic | -"
     | .ok loaded =>
-      let env := fillEnv r
+      let env := { fillEnv r with minimal := !nm }
       let w : World := { inp := r.inp, outRev := [] }
       let d := newDbg loaded (r.breaks.map (BitVec.ofNat 16)) r.cmds
       let fmt (head : String) (att : Bool) (d : Dbg) (m : Machine) (w : World) (ex : List Word) :
@@ -162,7 +166,7 @@ def handleDbg (tag : String) (toks : List String) : String :=
         (head ++ " " ++ showRegs m ++ " |" ++ memDiff loaded m ++ " | " ++ showWorld w ++ " | " ++
           toString pcs.length ++ " " ++ hex16 (fnv pcs) ++ " | " ++ toString d.ncmds ++ " " ++
           hex16 (fnv (d.cmdAt.reverse.map (BitVec.ofNat 16))) ++ " | " ++
-          showBps att d ++ " | " ++ showErr d, head, progBody loaded m w, pcs.length)
+          showBps att d ++ " | " ++ (if nm then "~" else showErr d), head, progBody loaded m w, pcs.length)
       let (line, head, body, nexec) :=
         match runLoop env r.fuel true d loaded w [] with
         | .done att d m w ex => fmt "done" att d m w ex
@@ -170,7 +174,7 @@ def handleDbg (tag : String) (toks : List String) : String :=
         | .fuel att d m w ex => fmt "fuel" att d m w ex
         | .panic _ => ("panic", "panic", "", 0)
       let plainRun (fuel : Nat) : String × String :=
-        match Run.loop r.so true fuel loaded w with
+        match Run.loop r.so (!nm) fuel loaded w with
         | .done m w => ("done", progBody loaded m w)
         | .exit c m w => ("exit " ++ toString c, progBody loaded m w)
         | .fuel m w => ("fuel", progBody loaded m w)
